@@ -190,6 +190,17 @@ def run_workload(ctx) -> None:
     rng = ctx.rng
     schemas = {v: schema_for(v) for v in VERSIONS}
     payloads = [p for p in gens.PAYLOAD_POOL if spec.payload_ok_for_roundtrip(p)]
+    # text the codec / handler modules themselves mention (vf.codedict; text the reference tree does not have first)
+    from ..histories import dictionary_payloads
+
+    words = [w for w in dictionary_payloads()[: ctx.pick(150, 800)] if spec.payload_ok_for_roundtrip(w)]
+    ctx.obs("dictionary-payloads", len(words))
+    for index, word in enumerate(words):
+        if ctx.mine(index):
+            for version in VERSIONS:
+                for head in ((1, 0, 1, 0, 2 + index % 50), (0, 255, 3, index % 2, 9), (200, 7, 2, 1, 24), (1, 255, 0, 0, 17)):
+                    check_message(ctx, schemas[version], version, (*head, word))
+                check_line(ctx, schemas[version], version, f"1;0;1;0;{index % 57};{word}")
     # 1. exhaustive small product
     heads = list(gens.wellformed_messages_small())
     count = 0
